@@ -92,6 +92,13 @@ class CallMixin:
             if "property" in fi.decorators:
                 return self.call_spec(st, fi.qual, [v], {}, f"prop:{attr}")
             return [Res(st, SV(Val.bm(v.t, z3.IntVal(METHS.id(attr))), Ty("bm", (), fi.qual)))]
+        # attribute of a subclass: allowed where the object is known to be of that subclass (checked)
+        subs = [c for c in self.world.classes if cls in self.world.mro(c) and c != cls and attr in self.reg.schema.get(c, {})]
+        if len(subs) == 1:
+            sub = subs[0]
+            self.oblige(st, "pre", f"downcast-to-{sub}-is-safe", subcls(st.fld("__class__", Val.a(v.t)), con(sub)),
+                        f"attr:{attr}#{self.call_ord.setdefault('dc:' + attr, 0)}")
+            return [Res(st, self.typed(st, st.fld(attr, Val.a(v.t)), self.reg.schema[sub][attr]))]
         raise Untranslatable(f"attribute {cls}.{attr} is not in the schema")
 
     def set_attr(self, st: State, obj: SV, attr: str, v: SV, node=None) -> list[Outcome]:
@@ -144,7 +151,7 @@ class CallMixin:
         if k == "pair":
             if isinstance(node.slice, ast.Constant) and node.slice.value in (0, 1):
                 return [Res(st, SV(Val.fst(coll.t) if node.slice.value == 0 else Val.snd(coll.t), ty.args[node.slice.value]))]
-        if k in ("class", "ext"):      # generic alias  set[Context], create_memory_object_stream[T]
+        if k in ("class", "ext", "con", "func"):      # generic alias  set[Context], create_memory_object_stream[T]
             return [Res(st, coll)]
         raise Untranslatable(f"subscript on {coll.ty}")
 
@@ -213,6 +220,14 @@ class CallMixin:
                 continue
             self.oblige(st, "inv", name, fn(new), anchor)
 
+    def assume_invariant(self, st: State, entry, H):
+        """class invariants are hypotheses; `lazy` ones only for the obligations that ask for them"""
+        opts = entry[3] if len(entry) > 3 else {}
+        if opts.get("lazy"):
+            st.lazy.append((entry[0], entry[1](H)))
+        else:
+            st.assume(entry[1](H))
+
     def havoc(self, st: State, anchor: str) -> State:
         """Foreign code runs (other tasks at an await, user code in an opaque call): new heap under the rely."""
         s2 = st.copy()
@@ -224,9 +239,34 @@ class CallMixin:
         new = HeapView(newheap)
         s2.assume(new.alloc >= old.alloc)
         for entry in self.reg.rely_clauses(self):
-            s2.assume(entry[1](old, new))
+            if entry[0].startswith(("immutable:", "set-monotone:")):
+                # quantified immutability: ground instances for the objects in scope are assumed below; the
+                # quantified form is a second-stage hypothesis
+                s2.heavy.append(entry[1](old, new))
+            else:
+                s2.assume(entry[1](old, new))
         for entry in self.reg.invariants:
-            s2.assume(entry[1](new))
+            self.assume_invariant(s2, entry, new)
+        # ground instances of the immutability clauses for the objects in scope (same facts as the quantified rely)
+        for n, v in st.env.items():
+            k = strip_opt(v.ty)
+            if k.kind != "inst":
+                continue
+            a = Val.a(v.t)
+            guard = z3.And(Val.is_ref(v.t), 0 <= a, a < st.heap["alloc"])
+            for item in self.reg.immutable_fields:
+                if isinstance(item, tuple) and item[0] in self.world.mro(k.name):
+                    c = "fld:" + item[1]
+                    s2.assume(z3.Implies(z3.And(guard, subcls(z3.Select(st.heap["fld:__class__"], a), con(item[0]))),
+                                         z3.Select(newheap[c], a) == z3.Select(st.heap[c], a)))
+                    fty = self.reg.schema.get(item[0], {}).get(item[1])
+                    if fty is not None and strip_opt(fty).kind == "tuple":
+                        tv = z3.Select(st.heap[c], a)
+                        ta = Val.a(tv)
+                        g2 = z3.And(guard, Val.is_ref(tv), 0 <= ta, ta < st.heap["alloc"])
+                        s2.assume(z3.Implies(g2, z3.And(z3.Select(newheap["t_item"], ta) == z3.Select(st.heap["t_item"], ta),
+                                                        z3.Select(newheap["t_len"], ta) == z3.Select(st.heap["t_len"], ta))))
+            s2.assume(z3.Implies(guard, z3.Select(newheap["fld:__class__"], a) == z3.Select(st.heap["fld:__class__"], a)))
         # objects owned by this activation are untouched
         for a in st.owned:
             for c, sort in self.comps.items():
@@ -354,6 +394,11 @@ class CallMixin:
         if isinstance(f, ast.Name) and f.id == "cast" and len(node.args) == 2:
             self.drop("cast")
             return self.eval(node.args[1], st)
+        if (isinstance(f, ast.Subscript) and isinstance(f.value, ast.Name) and f.value.id in ("set", "list", "dict")
+                and f.value.id not in st.env):
+            node = ast.Call(func=ast.Name(id=f.value.id, ctx=ast.Load()), args=node.args, keywords=node.keywords)
+            ast.copy_location(node, f)
+            f = node.func
         if isinstance(f, ast.Name) and f.id not in st.env and f.id not in self.freevars:
             h = getattr(self, "bi_" + f.id, None)
             rg = self.world.resolve_global(self.module, f.id)
@@ -471,9 +516,11 @@ class CallMixin:
             for i, v in enumerate(extra):
                 items = z3.Store(items, i, v.t)
             ta = st.new_tuple(items, z3.IntVal(len(extra)))
-            from .comps import tmem_intro
+            from .comps import tmem_intro, tmem
             st.assume(tmem_intro(items, z3.IntVal(len(extra))))
-            bound[a.vararg.arg] = SV(vref(ta), TUP(ANY))
+            for v in extra:
+                st.assume(tmem(items, z3.IntVal(len(extra)), v.t))
+            bound[a.vararg.arg] = SV(vref(ta), TUP(ANY), (items, z3.IntVal(len(extra))))
         if a.kwarg is not None:
             da = st.new_dict()
             for n, v in kw.items():
@@ -526,11 +573,34 @@ class CallMixin:
         F0 = Frame(self, st, st, args)
         for (name, f) in spec.requires(F0):
             self.oblige(st, "pre", f"{qual.split('.', 1)[-1]}.{name}", f, anchor)
-        if spec.suspends:
+            st.assume(f)        # assert-then-assume: the obligation above must be discharged for the run to pass
+        pw = spec.pure_when(F0)
+        if pw is not None and not getattr(self, "_in_pure_split", False):
+            # the call has no effect at all when `pw` holds: split, so that callers keep the whole heap on that branch
+            out = []
+            self._in_pure_split = True
+            try:
+                s_pure = st.fork(pw)
+                if self.feasible(s_pure):
+                    out.extend(self.call_spec_effect(s_pure, spec, qual, args, anchor, pure=True))
+                s_eff = st.fork(z3.Not(pw))
+                if self.feasible(s_eff):
+                    out.extend(self.call_spec_effect(s_eff, spec, qual, args, anchor, pure=False))
+            finally:
+                self._in_pure_split = False
+            return out
+        return self.call_spec_effect(st, spec, qual, args, anchor, pure=False)
+
+    def call_spec_effect(self, st: State, spec, qual, args, anchor, pure) -> list[Res]:
+        from .specs import Frame
+        if spec.suspends and not pure:
             self.segment_end(st, anchor)
         s2 = st.copy()
         old_alloc = st.heap["alloc"]
-        if spec.suspends or spec.modifies == "rely":
+        if pure:
+            s2.heap["alloc"] = fresh("cs.alloc", I)
+            s2.assume(s2.heap["alloc"] >= old_alloc)
+        elif spec.suspends or spec.modifies == "rely":
             s2 = self.havoc(st, anchor)
             if spec.suspends:
                 s2.suspended = z3.BoolVal(True)
@@ -544,6 +614,8 @@ class CallMixin:
                     s2.assume(entry[1](old, new))
         out = []
         ok = s2.copy()
+        if qual == "_event.Signal.dispatch":
+            ok.ghost["n_dispatch"] = ok.ghost.get("n_dispatch", 0) + 1
         rt = fresh("res")
         res = self.typed(ok, rt, spec.ret_type)
         F = Frame(self, st, ok, args, result=res)
